@@ -1,6 +1,7 @@
 package props
 
 import (
+	"unicode/utf8"
 	"sort"
 	stdjson "encoding/json"
 	"fmt"
@@ -198,10 +199,10 @@ func satisfies(lit string, rules []string) verdict {
 			s, _ := ref.DecodeString([]byte(lit))
 			var n int
 			fmt.Sscan(r.val, &n)
-			if r.name == "minLength" && len(s) < n {
+			if r.name == "minLength" && utf8.RuneCountInString(s) < n {
 				res = reject
 			}
-			if r.name == "maxLength" && len(s) > n {
+			if r.name == "maxLength" && utf8.RuneCountInString(s) > n {
 				res = reject
 			}
 		case "regex":
@@ -457,7 +458,9 @@ func ruleSetFor(t tv) string {
 
 var c01Nums = []string{"-10", "-1.1", "-1", "-0.5", "-0.10", "-0", "0", "0.0", "0.1", "0.10", "0.5", "1", "1.0", "1.5", "1.25", "1.250", "2", "9.99", "10", "12.5", "12.50"}
 var c01NumsQuick = []string{"-1.1", "-1", "-0", "0", "0.0", "0.10", "1", "1.0", "1.5", "1.250", "2"}
-var c01Strings = []string{`""`, `"a"`, `"ab"`, `"abc"`, `"abcd"`, `"a.b"`, `"A"`}
+// strings incl. escapes and non-ASCII characters: a length is a number of characters
+// (the rule is exported 1:1 as OpenAPI minLength / maxLength, which count characters)
+var c01Strings = []string{`""`, `"a"`, `"ab"`, `"abc"`, `"abcd"`, `"a.b"`, `"A"`, `"a\"b"`, `"\n"`, `"\u0041b"`, `"é"`, `"日本"`, `"a\ud83d\ude00"`, `"\u00e9\u00e9"`}
 
 func c01TypedValues(thorough bool, visit func(tv)) {
 	nums := c01Nums
@@ -773,7 +776,7 @@ func init() {
 		},
 		Assumptions: []string{
 			"no claim: a null example under nullable:true combined with a type/or/reference; an integer literal against a float- or decimal-typed rule set; a literal whose only excess over `precision` is trailing zeros; format strings outside the clear-cut tables",
-			"string lengths are byte lengths of ASCII strings; regex means Go regexp, unanchored",
+			"string lengths are numbers of characters (code points of the decoded string), as in the OpenAPI keywords the rules are exported to; regex means Go regexp, unanchored",
 			"only structurally valid rule sets are generated (min < max, exclusive* only with its bound, non-empty maxItems on empty arrays excluded)",
 		},
 	})
